@@ -9,7 +9,9 @@
 // @h c13_hyphenated_crate tier=both bounded=enumerated-literal-crate-and-path
 // @h c13_no_path_separator tier=both bounded=enumerated-literal-crate-and-path
 // @h c13_first_segment_is_only_a_prefix tier=both bounded=enumerated-literal-crate-and-path
+// @h c13_configured_table_literals tier=native bounded=enumerated-literal-crate-and-path,requirement-^1.0,versions-1.2.3/2.0.0/1.2.3-rc.1,all-3-policies
 // @canary canary_c13_policy
+// @native-canary canary_c13_policy_native
 //
 // C13 -- the crate/version policy of the x-rust-type extension, on the policy slice of
 // `convert_rust_extension` extracted mechanically (lib/c13_prepare.py). The slice's result
@@ -60,22 +62,38 @@ fn req_caret_1_0() -> semver::VersionReq {
     }
 }
 
-/// config: 0 absent, 1 Any, 2 Never, 3 Version(1.2.3), 4 Version(2.0.0)
+/// config: 0 absent, 1 Any, 2 Never, 3 Version(1.2.3), 4 Version(2.0.0), 5 Version(1.2.3-rc.1)
 fn run(
     config: u8,
     rename: Option<&str>,
     crate_name: &str,
     path: &str,
 ) -> (Option<String>, UnknownPolicy) {
+    run_with(config, rename, crate_name, path, any_policy())
+}
+
+fn run_with(
+    config: u8,
+    rename: Option<&str>,
+    crate_name: &str,
+    path: &str,
+    policy: UnknownPolicy,
+) -> (Option<String>, UnknownPolicy) {
     let mut ts = empty_type_space();
-    let policy = any_policy();
     ts.settings.unknown_crates = policy;
     if config != 0 {
         let version = match config {
             1 => CrateVers::Any,
             2 => CrateVers::Never,
             3 => CrateVers::Version(semver::Version::new(1, 2, 3)),
-            _ => CrateVers::Version(semver::Version::new(2, 0, 0)),
+            4 => CrateVers::Version(semver::Version::new(2, 0, 0)),
+            _ => CrateVers::Version(semver::Version {
+                major: 1,
+                minor: 2,
+                patch: 3,
+                pre: semver::Prerelease::new("rc.1").unwrap(),
+                build: semver::BuildMetadata::EMPTY,
+            }),
         };
         ts.settings.crates.insert(
             String::from("uuid"),
@@ -127,6 +145,50 @@ stubs! {
         kani::cover!(r.is_some(), "[must] substitution reachable");
         kani::cover!(r.is_none(), "[must] generation reachable");
         core::mem::forget(r);
+    }
+}
+
+/// BOUNDED STAND-IN for the configured-crate cells (P2-P5), which CBMC does not finish: the
+/// whole table on literals, under each of the three unknown-crate policies, executed natively
+/// against the real code (`tier=off`); no symbolic value is drawn.
+stubs! {
+    fn c13_configured_table_literals() {
+        let policies = [UnknownPolicy::Generate, UnknownPolicy::Allow, UnknownPolicy::Deny];
+        for policy in policies {
+            let (r, _) = run_with(1, None, "uuid", "uuid::Uuid", policy.clone());
+            kani::assert(r.as_deref() == Some("uuid::Uuid"), "[C13/P2] a crate configured `*` was not substituted with its path unchanged");
+            let (r, _) = run_with(1, Some("my-uuid"), "uuid", "uuid::fmt::Simple", policy.clone());
+            kani::assert(
+                r.as_deref() == Some("my_uuid::fmt::Simple"),
+                "[C13/P5] a configured rename did not replace exactly the first path segment",
+            );
+            let (r, _) = run_with(2, None, "uuid", "uuid::Uuid", policy.clone());
+            kani::assert(r.is_none(), "[C13/P3] a crate marked `!` was substituted");
+            let (r, _) = run_with(2, Some("other"), "uuid", "uuid::Uuid", policy.clone());
+            kani::assert(r.is_none(), "[C13/P3] a crate marked `!` was substituted");
+            let (r, _) = run_with(3, None, "uuid", "uuid::Uuid", policy.clone());
+            kani::assert(
+                r.as_deref() == Some("uuid::Uuid"),
+                "[C13/P4] version 1.2.3 satisfies ^1.0 but the type was generated (or its path altered)",
+            );
+            let (r, _) = run_with(4, None, "uuid", "uuid::Uuid", policy.clone());
+            kani::assert(r.is_none(), "[C13/P4] version 2.0.0 does not satisfy ^1.0 but the type was substituted");
+            // a pre-release never satisfies a requirement without a pre-release tag
+            let (r, _) = run_with(5, None, "uuid", "uuid::Uuid", policy.clone());
+            kani::assert(r.is_none(), "[C13/P4] version 1.2.3-rc.1 does not satisfy ^1.0 but the type was substituted");
+            let (r, _) = run_with(3, Some("u2"), "uuid", "uuid::Uuid", policy.clone());
+            kani::assert(
+                r.as_deref() == Some("u2::Uuid"),
+                "[C13/P5] a configured rename did not replace exactly the first path segment",
+            );
+        }
+    }
+}
+
+stubs! {
+    fn canary_c13_policy_native() {
+        let (r, _) = run_with(1, None, "uuid", "uuid::Uuid", UnknownPolicy::Deny);
+        kani::assert(r.is_none(), "[CANARY] a crate configured `*` is never substituted");
     }
 }
 
